@@ -492,6 +492,7 @@ def variants():
     f = "apply_boundary_conditions"
     g = "check_bounds"
     return [
+        Variant("d-shifted-remainder", "bad", replace_stmt(mc, f, "remainder = val - n_reflect", "remainder = (val + 1.0) - (n_reflect + 1.0)"), ["C16.d"], quick=True),
         Variant("a-astype-int", "bad", replace_expr(mc, f, "np.floor(val)", "np.floor(val).astype(int)"), ["C16.a"], quick=True),
         Variant("b-no-copy", "bad", delete_stmt(mc, f, "u = u.copy()"), ["C16.b"], quick=True),
         Variant("b-row-index", "bad", replace_stmt(mc, f, "u[..., idx] = u[..., idx] % 1.0", "u[idx] = u[idx] % 1.0"), ["C16.b", "ANALYSIS-ERROR"]),
